@@ -213,7 +213,8 @@ func oracleC04(r *RunCtx, rec *BlockRecord, t *TxInfo) {
 		}
 	}
 	// the fee collector gains exactly what the sender paid in fees
-	if t.HasEthEvent && !strings.Contains(opNote(r, t), "feecollector") {
+	// (not comparable when the transaction itself names the fee collector, e.g. as the recipient of a precompile transfer)
+	if t.HasEthEvent && !bytes.Contains(t.EthTx.Data(), FeeCollectorAddr.Bytes()) {
 		got := new(big.Int).Sub(va.Balance(FeeCollectorAddr, BaseDenom), vb.Balance(FeeCollectorAddr, BaseDenom))
 		want := new(big.Int).Mul(new(big.Int).SetUint64(gasUsedForFee(t)), price)
 		if got.Cmp(want) != 0 {
@@ -227,8 +228,6 @@ func oracleC04(r *RunCtx, rec *BlockRecord, t *TxInfo) {
 		}
 	}
 }
-
-func opNote(r *RunCtx, t *TxInfo) string { return "" }
 
 func denomClass(d string) string {
 	if d == BaseDenom {
